@@ -4,6 +4,8 @@ import TxdbusModel.Proofs.Route.Router
 import TxdbusModel.Proofs.Route.Text
 import TxdbusModel.Proofs.Route.Proxy
 import TxdbusModel.Proofs.Route.Client
+import TxdbusModel.Proofs.Route.TextSpec
+import TxdbusModel.Proofs.Route.Namespace
 /-!
 # C12 - a signal reaches exactly the callbacks whose match rule it satisfies
 
@@ -20,14 +22,21 @@ open Spec
 
 /-- `router._mtypes`, the tuple of `Rule.add`, the keys `MessageRouter.addMatch` stores each parameter
 under, how the type constraint is translated, the keys of the rule text written by
-`DBusClientConnection.addMatch` and the `kwargs` keys of `Bus.dbus_AddMatch`. -/
+`DBusClientConnection.addMatch` with the variable written under each, the `kwargs` keys of
+`Bus.dbus_AddMatch`, the keyword arguments of the `addMatch` call in `notifyOnSignal`.  All lists are
+emitted in a canonical order: reordering the `if` chain / the `add` calls in the source is not
+observable through the property and changes nothing here. -/
 theorem tables_current :
     Tables.gen = Tables.cur
     ∧ Gen.Route.busKwargKeys = curBusKeys
     ∧ Gen.Route.clientTextKeys =
-        ["type".toList, "sender".toList, "interface".toList, "member".toList, "path".toList,
-         "path_namespace".toList, "destination".toList, "arg%d".toList, "arg%dpath".toList,
-         "arg0namespace".toList] := by decide
+        [("type".toList, "mtype".toList), ("sender".toList, "sender".toList), ("interface".toList, "interface".toList),
+         ("member".toList, "member".toList), ("path".toList, "path".toList),
+         ("path_namespace".toList, "path_namespace".toList), ("destination".toList, "destination".toList),
+         ("arg%d".toList, "v".toList), ("arg%dpath".toList, "v".toList), ("arg0namespace".toList, "arg0namespace".toList)]
+    ∧ Gen.Route.notifyKwargs =
+        [("mtype".toList, "'signal'".toList), ("interface".toList, "iface.name".toList),
+         ("member".toList, "signalName".toList), ("path".toList, "self.objectPath".toList)] := by decide
 
 theorem gen_eq_cur : Tables.gen = Tables.cur := tables_current.1
 
@@ -61,7 +70,18 @@ example : specMatches
     { mtype := 4, path := .some "/a/b".toList, iface := .some "a.b".toList, member := .some "M".toList,
       dest := .none, sender := .none, body := some [.str "x".toList, .str "/aa/bb".toList] } = true := by decide
 
-/-! ## 2. routing over all add/remove histories -/
+/-- "That path or a descendant of it", independently of the character-level test: `specMatches`'s
+path_namespace condition holds iff the components of the namespace are an initial stretch of the
+components of the path (or the namespace is the root).  Holds for all strings. -/
+theorem namespace_is_component_prefix (ns p : Str) :
+    Spec.inNamespace ns p = true ↔ descendantOrSelf ns p :=
+  inNamespace_iff_components ns p
+
+/-! ## 2. routing over all add/remove histories
+
+"All histories" means all sequences of `Op`: callbacks may raise (any exception, `raises` is arbitrary)
+but do not call back into the router while a message is being routed (non-re-entrant histories; the
+public client API cannot re-enter, see notes/C12.md). -/
 
 /-- `route_exact`.  Run any history of `addMatch` / `delMatch` / `routeMessage` operations on a fresh
 `MessageRouter`, with callbacks raising or not as `raises` says.  What the caller observes (ids
@@ -174,7 +194,44 @@ theorem rule_text_roundtrip (a : RuleArgs) (hok : a.TextOk) (hne : renderItems a
   rw [tables_current.2.1]
   exact parse_render a hok hne
 
-/-- ... and the rule the bus stores from that text is the rule the client stores locally. -/
+/-- `client_text_means_constraints`.  The text written by `DBusClientConnection.addMatch`, read with the
+grammar of the DBus specification (`Spec.ruleTextMeaning`: comma-separated `key=value`, apostrophe
+quoting, backslash-apostrophe outside quotes; keys `type`, ..., `argN`, `argNpath` with decimal `N`) -
+a definition that never looks at txdbus - means exactly the constraints of the rule.  Hypothesis: no
+value contains an apostrophe (the code does not escape; see notes).  Commas, equals signs and
+backslashes inside values are fine, the empty rule included. -/
+theorem client_text_means_constraints (a : RuleArgs) (hq : a.QuoteFree) :
+    ruleTextMeaning (renderRule a) = some (constraintsOf a) :=
+  text_means_constraints a hq
+
+/-- On the domain where txdbus's own bus can read the text (`TextOk`: no `,` `=` in values; at least one
+constraint) and the text is valid DBus (`QuoteFree`): what `Bus.dbus_AddMatch` extracts and what the
+specification says the text means are the same constraints. -/
+theorem bus_reads_what_the_text_means (a : RuleArgs) (hok : a.TextOk) (hq : a.QuoteFree) (hne : renderItems a ≠ []) :
+    ∃ b, parseRuleGen (renderRule a) = .ok b ∧ ruleTextMeaning (renderRule a) = some (constraintsOf b) := by
+  refine ⟨a.normalize, rule_text_roundtrip a hok hne, ?_⟩
+  rw [text_means_constraints a hq]
+  congr 1
+  unfold constraintsOf RuleArgs.normalize
+  cases ha : a.args with
+  | none =>
+    cases hp : a.argPaths with
+    | none => simp [normPairs]
+    | some l => cases l <;> simp [normPairs]
+  | some l =>
+    cases l with
+    | nil =>
+      cases hp : a.argPaths with
+      | none => simp [normPairs]
+      | some l' => cases l' <;> simp [normPairs]
+    | cons x t =>
+      cases hp : a.argPaths with
+      | none => simp [normPairs]
+      | some l' => cases l' <;> simp [normPairs]
+
+/-- ... and the rule the bus stores from that text is the rule the client stores locally.  (For a rule
+with an empty-string constraint value this holds only because both routers drop the value while the text
+still says `interface=''`: such rules are outside `match_eq_spec`, see `RuleArgs.WF`.) -/
 theorem bus_rule_is_client_rule (a : RuleArgs) : mkRule Tables.gen a.normalize = mkRule Tables.gen a := by
   unfold mkRule
   congr 1
@@ -268,6 +325,30 @@ theorem proxy_delivery (path member iface : Str) (hp : path ≠ []) (hm : member
     · rintro ⟨⟨⟨h1, h2⟩, h3⟩, h4⟩; exact ⟨h1, h4, h3, h2⟩
     · rintro ⟨h1, h2, h3, h4⟩; exact ⟨⟨⟨h1, h4⟩, h3⟩, h2⟩
 
+/-- `proxy_select`.  Which declaration a subscription refers to: `notifyOnSignal(name, cb, interface)`
+takes the first interface of the proxy that passes the `interface=` filter and declares `name`; the
+rule it registers names that interface and the gate uses that interface's declared signature; it raises
+`AttributeError` exactly when no such interface exists. -/
+theorem proxy_select (name : Str) (req : Option Str) (ifs : List IfaceDecl) :
+    (∀ n sg, selectSignal name req ifs = some (n, sg) →
+      ∃ pre i post, ifs = pre ++ i :: post ∧ i.name = n ∧ i.signals.lookup name = some sg ∧ passes req i
+        ∧ ∀ j ∈ pre, ¬ (passes req j ∧ (j.signals.lookup name).isSome))
+    ∧ (selectSignal name req ifs = none ↔ ∀ i ∈ ifs, ¬ (passes req i ∧ (i.signals.lookup name).isSome)) :=
+  ⟨fun n sg h => selectSignal_some name req ifs n sg h, selectSignal_none name req ifs⟩
+
+/-- `proxy_cancel`.  `cancelSignalNotification(id)` calls `conn.delMatch(id)` iff `id` is a current
+subscription of this proxy; afterwards it is none (a second cancel does nothing) and every other
+subscription of the proxy is untouched - for any number of subscriptions. -/
+theorem proxy_cancel (p : ProxySubs) (id : Nat) :
+    ((p.cancel id).2 = if id ∈ p.rules then some id else none)
+    ∧ id ∉ (p.cancel id).1.rules
+    ∧ (∀ j, j ≠ id → (j ∈ (p.cancel id).1.rules ↔ j ∈ p.rules))
+    ∧ ((p.cancel id).1.cancel id).2 = none := by
+  obtain ⟨h1, h2, h3⟩ := cancel_spec p id
+  refine ⟨h1, h2, h3, ?_⟩
+  have := (cancel_spec (p.cancel id).1 id).1
+  rw [this]; simp [h2]
+
 /-! ## 5. the client connection -/
 
 /-- `client_refines_router`.  Over every history of `addMatch` / `delMatch` calls, replies from the daemon
@@ -279,18 +360,21 @@ theorem client_refines_router (raises : Nat → Cb → Bool) (h : List COp) (c :
       = (Router.run Tables.gen raises c.router (Client.routerTrace Tables.gen raises c h)).1 :=
   client_run_router Tables.gen raises h c
 
-/-- After any client history: a signal invokes exactly the acknowledged, not yet removed rules it
-satisfies; and `match_rules` holds for each of them the text rendered from its constraints - which is
-both what `AddMatch` carried and what `delMatch` puts into `RemoveMatch`. -/
+/-- `client_signal_exact`.  `Spec.ClientSpec.run {} h` is computed from the events alone (a registration
+exists from the acknowledgement of its AddMatch to the acknowledgement of a RemoveMatch for its id; it
+never looks at the code model).  After any client history: a signal invokes exactly the registrations
+of that registry which it satisfies, and `match_rules` holds for each of them the text rendered from its
+constraints - which is both what `AddMatch` carried and what `delMatch` puts into `RemoveMatch`. -/
 theorem client_signal_exact (raises : Nat → Cb → Bool) (h : List COp) (hwf : ∀ op ∈ h, op.WF) (m : Msg) :
     let c := (Client.run Tables.gen raises {} h).1
-    let g := Client.specAfter raises {} {} h
+    let g := (ClientSpec.run {} h).reg
     (c.router.route raises m).invoked = (g.live.filter (fun r => specMatches r.args m)).map (fun r => (r.id, r.cb))
     ∧ c.matchRules = g.live.map (fun r => (r.id, renderRule r.args)) := by
   intro c g
-  have hc : CInv c g := by
-    show CInv (Client.run Tables.gen raises {} h).1 _
-    rw [gen_eq_cur]; exact cinv_run raises h {} {} cinv_init hwf
+  have hl : Link c (ClientSpec.run {} h) := by
+    show Link (Client.run Tables.gen raises {} h).1 _
+    rw [gen_eq_cur]; exact link_run raises h {} {} link_init hwf
+  have hc : CInv c g := hl.inv
   refine ⟨?_, hc.texts⟩
   unfold Router.route
   rw [hc.sim.rules, routeList_invoked raises m g.live hc.sim.wf]
@@ -337,16 +421,21 @@ end Txdbus.Route
 #print axioms Txdbus.Route.gen_eq_cur
 #print axioms Txdbus.Route.mtypes_table_is_spec
 #print axioms Txdbus.Route.match_eq_spec
+#print axioms Txdbus.Route.namespace_is_component_prefix
 #print axioms Txdbus.Route.route_exact
 #print axioms Txdbus.Route.route_independent_of_raising
 #print axioms Txdbus.Route.invoked_exact_each_once
 #print axioms Txdbus.Route.removed_never_invoked
 #print axioms Txdbus.Route.ids_never_reused
 #print axioms Txdbus.Route.rule_text_roundtrip
+#print axioms Txdbus.Route.client_text_means_constraints
+#print axioms Txdbus.Route.bus_reads_what_the_text_means
 #print axioms Txdbus.Route.bus_rule_is_client_rule
 #print axioms Txdbus.Route.empty_rule_rejected_by_bus
 #print axioms Txdbus.Route.proxy_gate
 #print axioms Txdbus.Route.proxy_delivery
+#print axioms Txdbus.Route.proxy_select
+#print axioms Txdbus.Route.proxy_cancel
 #print axioms Txdbus.Route.client_refines_router
 #print axioms Txdbus.Route.client_signal_exact
 #print axioms Txdbus.Route.prefix_mtype_constraint_ignored
